@@ -95,6 +95,36 @@ func (t *StandardRoundTimer) background(ctx context.Context) {
 
 	var timerElapsed, cancelTimer chan struct{}
 
+	// mu makes "close timerElapsed unless already cancelled" atomic
+	// with respect to the cancel functions handed to callers,
+	// so that a timer never reports an elapse after its cancel function returned.
+	var mu sync.Mutex
+
+	startTimer := func(req startTimerRequest) {
+		// We assume the timer is always stopped by the time we receive a valid start timer request.
+		// If the timer is stopped, then we are safe to reset.
+		timer.Reset(req.Dur)
+
+		timerElapsed = make(chan struct{})
+		cancelTimer = make(chan struct{})
+		// Local reference so the returned cancel function
+		// doesn't have a closure over the outer variable.
+		localCancel := cancelTimer
+		var cancelOnce sync.Once
+		// The caller should be blocking on the receive here,
+		// so we should be safe to do a blocking send.
+		req.Resp <- startTimerResponse{
+			Elapsed: timerElapsed,
+			Cancel: func() {
+				cancelOnce.Do(func() {
+					mu.Lock()
+					close(localCancel)
+					mu.Unlock()
+				})
+			},
+		}
+	}
+
 	for {
 		// Wait for signal to start timer.
 		select {
@@ -102,28 +132,10 @@ func (t *StandardRoundTimer) background(ctx context.Context) {
 			return
 
 		case req := <-t.startTimerRequests:
-			// We assume the timer is always stopped by the time we receive a valid start timer request.
-			// If the timer is stopped, then we are safe to reset.
-			timer.Reset(req.Dur)
-
-			timerElapsed = make(chan struct{})
-			cancelTimer = make(chan struct{})
-			// Local reference so the returned cancel function
-			// doesn't have a closure over the outer variable.
-			localCancel := cancelTimer
-			var cancelOnce sync.Once
-			// The caller should be blocking on the receive here,
-			// so we should be safe to do a blocking send.
-			req.Resp <- startTimerResponse{
-				Elapsed: timerElapsed,
-				Cancel: func() {
-					cancelOnce.Do(func() {
-						close(localCancel)
-					})
-				},
-			}
+			startTimer(req)
 		}
 
+	RUNNING:
 		// The timer is running.
 		select {
 		case <-ctx.Done():
@@ -131,7 +143,15 @@ func (t *StandardRoundTimer) background(ctx context.Context) {
 
 		case <-timer.C:
 			// The timer elapsed.
-			close(timerElapsed)
+			// The select may pick this case although the timer was already cancelled;
+			// a cancelled timer must not report an elapse.
+			mu.Lock()
+			select {
+			case <-cancelTimer:
+			default:
+				close(timerElapsed)
+			}
+			mu.Unlock()
 			timerElapsed = nil
 			cancelTimer = nil
 
@@ -152,7 +172,24 @@ func (t *StandardRoundTimer) background(ctx context.Context) {
 			timerElapsed = nil
 			cancelTimer = nil
 
-		case <-t.startTimerRequests:
+		case req := <-t.startTimerRequests:
+			select {
+			case <-cancelTimer:
+				// The previous timer was already cancelled and the select
+				// merely picked the new request before the cancellation:
+				// finish the cancellation, then serve the request.
+				if !timer.Stop() {
+					select {
+					case <-timer.C:
+						// Okay.
+					case <-ctx.Done():
+						return
+					}
+				}
+				startTimer(req)
+				goto RUNNING
+			default:
+			}
 			panic(errors.New(
 				"BUG: new timer requested before previous timer elapsed or was cancelled",
 			))
